@@ -137,11 +137,16 @@ func verifHarnessC09FileClient() {
 	for i := 0; i < param("names"); i++ {
 		mapPutIf(fc.db, nondetString("file.name"), &api.SecretValue{Value: nondetSeq("file.val"), Version: api.SecretVersion(nondetU32("file.ver"))}, nondetBool("file.p"))
 	}
+	// what NewFileClient guarantees about the table (decided on the real constructor in verifHarnessC09FileClientLoad)
+	assume(mapAll(fc.db, func(_ string, sv *api.SecretValue) bool { return sv != nil && sv.Version >= 1 }))
 	pre := snapshot(fc.db)
 	name := nondetString("name")
 	v := api.SecretVersion(nondetU32("version"))
 	sv, err := fc.GetIfChanged(verifBackground(), name, v)
 	have := pre[name]
+	if v == 0 && have != nil {
+		assert("version-zero-ignores-the-flag", and(err == nil, sv != nil, sv.Version == have.Version, bytesEq(sv.Value, have.Value)))
+	}
 	if have == nil {
 		assert("absent-not-found", and(sv == nil, err == api.ErrNotFound))
 		reach("end-absent")
@@ -154,4 +159,39 @@ func verifHarnessC09FileClient() {
 	}
 	assert("different-version-delivers-it", and(err == nil, sv != nil, sv.Version == have.Version, bytesEq(sv.Value, have.Value)))
 	reach("end-changed")
+}
+
+// C09, file-backed client through its real constructor: whatever the file holds (versions 0 included, empty values,
+// missing secrets), a conditional get with V = 0 behaves exactly like a plain get, and every entry the client serves has
+// a version of at least 1 (so "not changed" can only ever be answered for a V the caller really holds).
+func verifHarnessC09FileClientLoad() {
+	verifEnvReset()
+	verifFSReset()
+	m := map[string]*cachedSecret{}
+	for i := 0; i < param("names"); i++ {
+		mapPutIf(m, nondetString("st.name"), verifSymCached(false), nondetBool("st.p"))
+	}
+	doc, _ := json.Marshal(m)
+	verifFS.files["/etc/secrets.json"] = &verifInode{content: doc, complete: true, mode: 0600}
+	fc, err := NewFileClient("/etc/secrets.json")
+	assert("accepted", and(err == nil, fc != nil))
+	name := nondetString("name")
+	g, gerr := fc.Get(verifBackground(), name)
+	c, cerr := fc.GetIfChanged(verifBackground(), name, 0)
+	if gerr != nil {
+		assert("version-zero-ignores-the-flag", and(c == nil, cerr == gerr))
+		reach("end-absent")
+		return
+	}
+	assert("served-entries-have-a-real-version", g.Version >= 1)
+	assert("version-zero-ignores-the-flag", and(cerr == nil, c != nil, c.Version == g.Version, bytesEq(c.Value, g.Value)))
+	v := api.SecretVersion(nondetU32("version"))
+	c2, cerr2 := fc.GetIfChanged(verifBackground(), name, v)
+	if v != 0 {
+		assert("not-changed-iff-V-is-the-held-version", (cerr2 == api.ErrValueNotChanged) == (v == g.Version))
+		if v != g.Version {
+			assert("otherwise-the-held-value", and(cerr2 == nil, c2 != nil, c2.Version == g.Version))
+		}
+	}
+	reach("end-present")
 }
